@@ -128,8 +128,31 @@ def in_pristine_child(fn, *a):
     return pickle.loads(data)
 
 
+def generate_block(args):
+    pid, tier, verif_seed, start, stop, known = args
+    faulthandler.dump_traceback_later(TASK_TIMEOUT, exit=True)
+    try:
+        mod = load_prop(pid)
+        out = []
+        for index in range(start, stop):
+            seed = core.run_seed(verif_seed, pid, tier, index)
+            out.append((seed, mod.generate(seed, tier)))
+        return {'ok': True, 'cases': out}
+    except Exception:   # noqa
+        return {'ok': False, 'error': traceback.format_exc()}
+    finally:
+        faulthandler.cancel_dump_traceback_later()
+
+
 def run_task(args):
-    res = in_pristine_child(run_task_inner, args)
+    # generators may run the library themselves (dry passes that place faults): they get a process of their own, so
+    # that the process history of a block consists of the executed cases and nothing else
+    gen = in_pristine_child(generate_block, args)
+    if gen is None:
+        return {'ok': False, 'error': 'task %r: generator process died or timed out (see stderr)' % (args[3:5],)}
+    if not gen['ok']:
+        return gen
+    res = in_pristine_child(run_task_inner, args, gen['cases'])
     if res is None:
         return {'ok': False, 'error': 'task %r: child process died or timed out (see stderr)' % (args[3:5],)}
     return res
@@ -147,7 +170,7 @@ def run_sequence(pid, sequence, case):
     return execute_guarded(mod, core.deep_copy(case))
 
 
-def run_task_inner(args):
+def run_task_inner(args, cases):
     pid, tier, verif_seed, start, stop, known = args
     faulthandler.dump_traceback_later(TASK_TIMEOUT, exit=True)
     try:
@@ -159,9 +182,8 @@ def run_task_inner(args):
         history = []
         disturbed = False
         for index in range(start, stop):
-            seed = core.run_seed(verif_seed, pid, tier, index)
+            seed, case = cases[index - start]
             t0 = time.perf_counter()
-            case = mod.generate(seed, tier)
             res = execute_guarded(mod, case)
             row = {'index': index, 'seed': seed, 'sig': res.get('sig', ''), 'digest': res.get('digest', ''),
                    'nontrivial': bool(res.get('nontrivial', True)), 'stats': res.get('stats', {}),
